@@ -8,7 +8,7 @@ Line-protocol driver for C06: one function per line (all naturals, separated by 
          | 3 nedges ( nops (code a b)* target )*
     micro-op codes: 0 define d kind(0 owned 1 maybe 2 borrowed 3 maybeBorrowed 4 null 5 imm) | 1 incref v _ |
       2 decref v x | 3 steal v _ | 4 stealMaybe v _ | 5 use v _ | 6 useMaybe v _ | 7 move d s |
-      8 assumeNull v _ | 9 assumeOk v _
+      8 assumeNull v _ | 9 assumeOk v _ | 10 clobber v _
     argument kinds: 0 borrowed | 1 optional
 
 A line is `0 <function>` (verify) or `1 nnull v* nchoices (afterOps edge afterEdge)* <function>` (replay a witness).
@@ -37,7 +37,8 @@ def mkOp (code a b : Nat) : MicroOp :=
   | 6 => .useMaybe a
   | 7 => .move a b
   | 8 => .assumeNull a
-  | _ => .assumeOk a
+  | 9 => .assumeOk a
+  | _ => .clobber a
 
 def readOps : Nat → P (List MicroOp)
   | 0 => pure []
